@@ -19,7 +19,9 @@ Violations(line) ==
      \* on success exactly the signatures up to the good one were fetched and evaluated, in order
   \cup R("calls-on-success", e.verdict = "success" /\ o.verdict = "success" /\ (o.fetch # e.fetch \/ o.verify # e.verify))
      \* always: never more than N, in listing order, only fetched signatures are evaluated
-  \cup R("bounded", Len(o.fetch) > Max(in.n, 0) \/ ~Increasing(o.fetch) \/ Len(o.verify) > Len(o.fetch) \/ ~Increasing(o.verify))
+     \* (fetches are logged by position in the listing, evaluations by the signature the position stands for)
+  \cup R("bounded", Len(o.fetch) > Max(in.n, 0) \/ ~Increasing(o.fetch) \/ Len(o.verify) > Len(o.fetch)
+                     \/ \E k \in 1..Len(o.verify) : o.fetch[k] \in 1..Len(in.listing) /\ o.verify[k] # Canon(in, o.fetch[k]))
      \* skip: nothing is resolved, listed or fetched
   \cup R("skip-touches-nothing", in.skip # "no" /\ (o.resolves # 0 \/ o.lists # 0 \/ Len(o.fetch) # 0 \/ Len(o.verify) # 0))
 
